@@ -341,4 +341,9 @@ def finish(prop, m, known_all):
     if rc == 0 and not m.get('evaluations'):
         sys.stderr.write('CHECK BROKEN: nothing was evaluated\n')
         rc = 2
+    nt = m.get('nontrivial')
+    nt = nt if isinstance(nt, int) else len(nt or [])
+    if rc == 0 and nt < 2:
+        sys.stderr.write('CHECK BROKEN: fewer than 2 distinct non-trivial cases were evaluated (the evidence record would be void)\n')
+        rc = 2
     return rc
